@@ -198,7 +198,12 @@ pub fn emitted_request(history: &[(u8, u8, u8)], region: Region, with_filters: b
 /// Check one state: the request must parse under the grammar and denote exactly the reference groups.
 pub fn check_state(groups: &[BTreeMap<u8, u8>; 3], history: &[(u8, u8, u8)], region: (Region, u8)) -> Result<(), (String, String, String)> {
     let req = emitted_request(history, region.0, true).map_err(|e| ("request".to_string(), e, String::new()))?;
-    let parsed = parse_request(&req).map_err(|e| ("request-framing".to_string(), format!("{e}: {}", crate::vnet::hex(&req)), "31 region seed 00 filter 00".to_string()))?;
+    // (the filter pairs come out of hash maps: their order differs from process to process, so the observation quotes the
+    // two header bytes in hex and the rest as text, which the replay comparison reads as a multiset)
+    let parsed = parse_request(&req).map_err(|e| {
+        let cut = req.len().min(2);
+        ("request-framing".to_string(), format!("{e}: {} + {:?}", crate::vnet::hex(&req[.. cut]), String::from_utf8_lossy(&req[cut ..])), "31 region seed 00 filter 00".to_string())
+    })?;
     if parsed.region != region.1 || parsed.seed != "0.0.0.0:0" {
         return Err(("request-header".into(), format!("region {:#04x} seed {:?}", parsed.region, parsed.seed), format!("region {:#04x} seed \"0.0.0.0:0\"", region.1)));
     }
